@@ -278,6 +278,10 @@ def run_check(modname, tier, seed, only_part=None):
         if k not in byb or len(jdump(v['case'])) < len(jdump(byb[k]['case'])):
             byb[k] = v
     os.makedirs(os.path.join(VERIF, 'replays'), exist_ok=True)
+    if not os.environ.get('VERIF_SENS'):
+        for fn in os.listdir(os.path.join(VERIF, 'replays')):
+            if fn.startswith(pid + '_') and (not only_part or fn.startswith('%s_%s_' % (pid, only_part))):
+                os.unlink(os.path.join(VERIF, 'replays', fn))
     lines = []
     for (part, bucket), v in sorted(byb.items()):
         name = '%s_%s_%s.json' % (pid, part, hashlib.sha1(bucket.encode()).hexdigest()[:8])
